@@ -701,6 +701,33 @@ func (tr *gtTr) call(c *ast.CallExpr, env *venv) ex {
 	if pkg, name, ok := tr.libCall(c, env); ok {
 		return tr.library(pkg, name, c, env)
 	}
+	// v.String() on a data.Value: the parameter val_string : V -> option bstr (Undefined.String panics)
+	if sel, ok := c.Fun.(*ast.SelectorExpr); ok && sel.Sel.Name == "String" && len(c.Args) == 0 {
+		isVal := false
+		switch x := unparen(sel.X).(type) {
+		case *ast.Ident:
+			if v := env.lookup(x.Name); v != nil && v.typ.kind == kValue {
+				isVal = true
+			}
+		case *ast.IndexExpr:
+			if id, ok := unparen(x.X).(*ast.Ident); ok {
+				if v := env.lookup(id.Name); v != nil && v.typ.kind == kSlice && v.typ.elem.kind == kValue {
+					isVal = true
+				}
+			}
+		}
+		if isVal {
+			a := tr.expr(sel.X, env)
+			tr.fn.usesV = true
+			tr.fn.valueParams["val_string"] = true
+			o := tr.fresh()
+			return ex{binds: mergeBinds(a.binds, []gbind{{o, "val_string " + a.code}}), code: o, typ: tString}
+		}
+	}
+	// x.M() on a parameter of a /repo interface type: the value is a parameter of the translated function
+	if e, ok := tr.ifaceMethod(c, env); ok {
+		return e
+	}
 	// functions and methods of /repo
 	callee, recvExpr := tr.resolveCallee(c, env)
 	list := c.Args
@@ -946,6 +973,13 @@ func (tr *gtTr) library(pkg, name string, c *ast.CallExpr, env *venv) ex {
 		}
 		tr.fn.preds[predParam[name]] = true
 		return ex{binds: a.binds, code: "(" + predParam[name] + " " + a.code + ")", typ: tBool}
+	case pkg == "unicode/utf8" && name == "RuneStart":
+		need(1)
+		a := tr.expr(c.Args[0], env)
+		if a.typ.kind != kInt || a.typ.bits != 8 || a.typ.signed {
+			gtFail("utf8.RuneStart of a non-byte")
+		}
+		return ex{binds: a.binds, code: "(negb (Z.eqb (Z.land " + a.code + " 192%Z) 128%Z))", typ: tBool}
 	case pkg == "strings" && name == "ContainsRune":
 		need(2)
 		return tr.memRune(c.Args[0], c.Args[1], env, full)
@@ -1410,4 +1444,59 @@ func (tr *gtTr) structLit(x *ast.CompositeLit, t *gtype, env *venv) ex {
 		tr.fn.usesV = true
 	}
 	return ex{binds: binds, code: tupleOf(vals), typ: t, fresh: true}
+}
+
+// ifaceMethod: node.Position() for a parameter `node ast.Node`: an argument-less method of an interface type of /repo,
+// called on a parameter that is never assigned.  What it returns is not determined by anything the translated function
+// sees, so it becomes a parameter m_<param>_<Method> of the method's result type (one per parameter and method: Go's
+// method may in principle answer differently on each call; the functions translated so call it on an immutable AST
+// node, see gotrans_apply.go).
+func (tr *gtTr) ifaceMethod(c *ast.CallExpr, env *venv) (ex, bool) {
+	sel, ok := c.Fun.(*ast.SelectorExpr)
+	if !ok || len(c.Args) != 0 {
+		return ex{}, false
+	}
+	id, ok := unparen(sel.X).(*ast.Ident)
+	if !ok {
+		return ex{}, false
+	}
+	v := env.lookup(id.Name)
+	if v == nil || v.typ.kind != kOther || v.typ.ndir == "" {
+		return ex{}, false
+	}
+	isParam := false
+	for _, prm := range tr.fn.params {
+		if prm.goName == id.Name {
+			isParam = true
+		}
+	}
+	p := tr.g.gtPkg(v.typ.ndir)
+	ts := p.types[v.typ.nname]
+	if ts == nil || !isParam {
+		return ex{}, false
+	}
+	it, ok := ts.Type.(*ast.InterfaceType)
+	if !ok {
+		return ex{}, false
+	}
+	for _, m := range it.Methods.List {
+		ft, isFn := m.Type.(*ast.FuncType)
+		if !isFn || len(m.Names) != 1 || m.Names[0].Name != sel.Sel.Name {
+			continue
+		}
+		if ft.Params != nil && len(ft.Params.List) > 0 {
+			return ex{}, false
+		}
+		if ft.Results == nil || len(ft.Results.List) != 1 || len(ft.Results.List[0].Names) > 1 {
+			gtFail("interface method %s.%s does not return exactly one value", v.typ.name, sel.Sel.Name)
+		}
+		rt := tr.g.resolveType(p, p.typeIn[v.typ.nname], ft.Results.List[0].Type, 0)
+		if !rt.supported() || rt.usesValue() {
+			gtFail("interface method %s.%s returns a %s", v.typ.name, sel.Sel.Name, rt.name)
+		}
+		name := "m_" + id.Name + "_" + sel.Sel.Name
+		tr.fn.addAbstract(gtAbstract{name: name, typ: rt.coq()})
+		return ex{code: name, typ: rt}, true
+	}
+	return ex{}, false
 }
